@@ -1,9 +1,11 @@
 package props
 
 import (
+	"bytes"
 	"context"
 	"errors"
 	"fmt"
+	"go.sia.tech/coreutils/chain"
 	"os"
 	"strings"
 	"sync"
@@ -183,9 +185,19 @@ func (c *treeCM) State(id types.BlockID) (consensus.State, bool) {
 		return consensus.State{}, false
 	}
 	cs := c.stateOf(c.path[i])
-	if c.lie == "bogus-checkpoint" {
+	switch c.lie {
+	case "bogus-checkpoint":
 		cs.SiafundTaxRevenue = cs.SiafundTaxRevenue.Add(types.Siacoins(1))
 		cs.Attestations += 3
+	case "checkpoint-foundation-address":
+		// what an attacker would want a bootstrapping node to believe
+		cs.FoundationSubsidyAddress = types.Address{0xBA, 0xD0}
+		cs.FoundationManagementAddress = types.Address{0xBA, 0xD1}
+	case "checkpoint-state-of-other-block":
+		if i > 0 {
+			cs = c.stateOf(c.path[i-1])
+			cs.Index = c.path[i].Index() // linked to the right block, contents of another
+		}
 	}
 	return cs, true
 }
@@ -208,7 +220,7 @@ func (c *treeCM) TransactionsForPartialBlock([]types.Hash256) ([]types.Transacti
 	return nil, nil
 }
 
-var c11Lies = []string{"invalid-block-in-heavier-chain", "header-insufficient-work", "header-wrong-parent", "header-timestamp", "headers-remaining-lie", "blocks-wrong-count", "blocks-too-many", "blocks-mismatch", "blocks-reordered", "bogus-checkpoint", "stall", "garbage-nodes", "honest"}
+var c11Lies = []string{"invalid-block-in-heavier-chain", "header-insufficient-work", "header-wrong-parent", "header-timestamp", "headers-remaining-lie", "blocks-wrong-count", "blocks-too-many", "blocks-mismatch", "blocks-reordered", "bogus-checkpoint", "checkpoint-foundation-address", "checkpoint-state-of-other-block", "stall", "garbage-nodes", "honest"}
 
 var c11Announcements = []string{"none", "header-insufficient-work", "outline-invalid-block", "outline-wrong-missing-transactions", "empty-transaction-set", "transaction-set-unknown-basis", "header-unknown-parent"}
 
@@ -463,6 +475,7 @@ func runC11(e *sim.Env) {
 		time.Sleep(3 * time.Second)
 		poll()
 	}
+	c11Checkpoint(e, net, nw, tree, dominant, honest, byz, byzCMs, nodeOpts)
 	// faults stop: Byzantine peers go away; the victim must end on the heaviest honest chain
 	for _, b := range byz {
 		b.close()
@@ -544,6 +557,112 @@ func runC11(e *sim.Env) {
 	}
 	e.Nontrivial = true
 	e.Probe("victim_converged")
+}
+
+// c11Checkpoint is the bootstrap path: a fresh node asks peers for a
+// checkpoint (block + the state before it), starts a store from what a peer
+// answered, and syncs the rest. Whatever a Byzantine peer answers, an
+// accepted checkpoint is the real one.
+func c11Checkpoint(e *sim.Env, net *gen.Net, nw *simnet.Net, tree *gen.Tree, dominant *gen.Node, honest, byz []*netNode, byzCMs []*treeCM, nodeOpts func() []syncer.Option) {
+	// a v2 block above the require height on the honest chain
+	lo := net.Require() + 1
+	if dominant.Height <= lo+1 {
+		return
+	}
+	cp := dominant.Ancestor(uint64(e.Range(int(lo), int(dominant.Height)-1)))
+	if cp.Block.V2 == nil || !cp.Valid() || cp.Parent == nil {
+		return
+	}
+	e.Fault("checkpoint-bootstrap")
+	boot := newNetNodeAt(e, net, nw, 300, "10.7.0.1", false, newTreeCM(tree.Genesis, "honest"), nil)
+	defer boot.close()
+	var accepted *consensus.State
+	var acceptedBlock types.Block
+	ask := func(n *netNode, byzantine bool, lie string) {
+		ctx, cancel := context.WithTimeout(context.Background(), 5*time.Second)
+		p, err := boot.sy.Connect(ctx, n.addr)
+		cancel()
+		if err != nil {
+			e.Logf("checkpoint: connect to %s: %v", n.name, err)
+			return
+		}
+		defer p.Close()
+		var cs consensus.State
+		var b types.Block
+		var cerr error
+		e.Guard("C11.panic", "SendCheckpoint", func() { cs, b, cerr = p.SendCheckpoint(cp.Index(), net.Network, 30*time.Second) })
+		e.Logf("checkpoint %v from %s (byzantine=%v lie=%s): err=%v", cp.Index(), n.name, byzantine, lie, cerr)
+		if cerr != nil {
+			if !byzantine {
+				e.Violationf("C11.checkpoint", "honest-refused", "SendCheckpoint(%v) from the honest peer %s failed: %v", cp.Index(), n.name, cerr)
+			}
+			e.Probe("checkpoint_rejected")
+			return
+		}
+		cs.Network = nil
+		want := cp.Parent.L.State
+		want.Network = nil
+		if b.ID() != cp.ID || !bytes.Equal(gen.Enc(types.V2Block(b)), gen.Enc(types.V2Block(cp.Block))) {
+			e.Violationf("C11.checkpoint", "wrong-block:"+lie, "SendCheckpoint(%v) accepted a block that is not the requested one (peer lie: %s)", cp.Index(), lie)
+		}
+		if !bytes.Equal(gen.StateBytes(cs), gen.StateBytes(want)) {
+			e.Violationf("C11.checkpoint", "forged-state:"+lie, "SendCheckpoint(%v) accepted a state that is not the state before that block (peer lie: %s): %s", cp.Index(), lie, stateDiff(cs, want))
+		}
+		e.Probe("checkpoint_accepted")
+		cs.Network = net.Network
+		accepted, acceptedBlock = &cs, b
+	}
+	for i, b := range byz {
+		ask(b, true, byzCMs[i].lie)
+	}
+	ask(honest[0], false, "honest")
+	if accepted == nil {
+		return
+	}
+	// start a node from the accepted checkpoint and let it sync the rest
+	var dbs *chain.DBStore
+	var tipState consensus.State
+	var err error
+	disk := simdisk.New()
+	e.Guard("C11.panic", "NewDBStoreAtCheckpoint", func() { dbs, tipState, err = chain.NewDBStoreAtCheckpoint(disk, *accepted, acceptedBlock, nil) })
+	if err != nil {
+		e.Violationf("C11.checkpoint", "store-refused", "NewDBStoreAtCheckpoint refused a genuine checkpoint %v: %v", cp.Index(), err)
+	}
+	if tipState.Index != cp.Index() || !bytes.Equal(gen.StateBytes(tipState), gen.StateBytes(cp.L.State)) {
+		e.Violationf("C11.checkpoint", "store-state", "a store started at checkpoint %v reports tip %v / a state that differs from the reference: %s", cp.Index(), tipState.Index, stateDiff(tipState, cp.L.State))
+	}
+	rs := &recStore{DBStore: dbs}
+	cs := &chainSUT{net: net, db: disk, disk: disk, store: rs, cm: chain.NewManager(rs, tipState)}
+	// its only peer is the honest node it is given (no discovery): what it
+	// relays after syncing then goes nowhere else
+	node := newNetNodeAt(e, net, nw, 301, "10.7.0.2", true, nil, cs, append(nodeOpts(), syncer.WithPeerDiscoveryInterval(3*time.Hour))...)
+	defer node.close()
+	node.ps.AddPeer(honest[0].addr)
+	ctx, cancel := context.WithTimeout(context.Background(), 5*time.Second)
+	node.sy.Connect(ctx, honest[0].addr)
+	cancel()
+	deadline := time.Now().Add(20 * time.Minute)
+	for time.Now().Before(deadline) {
+		time.Sleep(3 * time.Second)
+		ts := node.s.cm.TipState()
+		t, ok := tree.ByID[ts.Index.ID]
+		if !ok || !t.Valid() {
+			e.Violationf("C11.node-valid", "checkpoint-node-tip", "the checkpoint-bootstrapped node reports tip %v which is not a valid block of the generated tree", ts.Index)
+		}
+		if !bytes.Equal(gen.StateBytes(ts), gen.StateBytes(t.L.State)) {
+			e.Violationf("C11.node-valid", "checkpoint-node-state", "the checkpoint-bootstrapped node's tip state differs from independent replay at %s: %s", t.Describe(), stateDiff(ts, t.L.State))
+		}
+		for h := cp.Height; h <= t.Height; h++ {
+			if idx, ok := node.s.cm.BestIndex(h); !ok || idx != t.Ancestor(h).Index() {
+				e.Violationf("C11.node-valid", "checkpoint-node-index", "the checkpoint-bootstrapped node: BestIndex(%d)=%v (ok=%v), want %v", h, idx, ok, t.Ancestor(h).Index())
+			}
+		}
+		if t == dominant || dominant.IsAncestorOf(t) {
+			e.Probe("checkpoint_node_synced")
+			return
+		}
+	}
+	e.Violationf("C11.syncs-to-honest-chain", "checkpoint-node-stalled", "20 simulated minutes after starting from checkpoint %v with an honest peer the node sits on %v instead of %s", cp.Index(), node.s.cm.Tip(), dominant.Describe())
 }
 
 var _ = sim.NewEnv
